@@ -14,6 +14,8 @@ package c01
 import (
 	"database/sql"
 	"database/sql/driver"
+	"encoding/json"
+	"errors"
 	"fmt"
 	"reflect"
 	"sort"
@@ -654,10 +656,19 @@ func run(c *core.Ctx) {
 			out, desc, req, finLeaves = g.runChain(root, parts, fin)
 		}
 		c.Logf("CHAIN %s", desc)
+		for name, n := range g.stats {
+			c.Add(name, n)
+		}
 		c.Inc("chains")
 		c.Inc("fin_" + fin)
+		if errors.Is(out.err, gorm.ErrDryRunModeUnsupported) {
+			// Scan / Raw.Scan: the row callback has built the complete statement and only declines to hand out rows
+			out.err = nil
+			c.Inc("dry_rows_declined_statement_checked")
+		}
 		if out.err != nil {
 			c.Inc("dry_error")
+			c.Inc("dry_error_" + fin)
 			c.Logf("  error: %v", out.err)
 			continue
 		}
@@ -763,6 +774,23 @@ func realPass(c *core.Ctx) {
 	if n != 1 {
 		problems = append(problems, fmt.Sprintf("updated hostile value counted %d times, want 1", n))
 	}
+	// a condition that mixes '@name' and '?', the named argument in front of the positional one
+	var got2 []Tag
+	if r2 := h.DB.Where("c2 IN ? OR c1 = @a", map[string]interface{}{"a": hostile + "'x"}, sl).Find(&got2); r2.Error != nil {
+		problems = append(problems, "mixed named/positional query error: "+r2.Error.Error())
+	} else if len(got2) != 1 || got2[0].ID != t.ID {
+		problems = append(problems, fmt.Sprintf("mixed named/positional condition found %d rows, want the one updated row", len(got2)))
+	}
+	// a table-valued function with a bound argument, written without any space: the document reaches the database
+	// as a bound value, in front of the values of the conditions
+	va, vb := int64(intBase+g.r.Intn(1000)), int64(2*intBase+g.r.Intn(1000))
+	doc, _ := json.Marshal([]interface{}{va, hostile, vb})
+	var vals []int64
+	if r3 := h.DB.Table("json_each(?)", string(doc)).Where("type = @t AND value <> ?", int64(0), sql.Named("t", "integer")).Order("key").Pluck("value", &vals); r3.Error != nil {
+		problems = append(problems, "table function query error: "+r3.Error.Error())
+	} else if len(vals) != 2 || vals[0] != va || vals[1] != vb {
+		problems = append(problems, fmt.Sprintf("table function over a bound document returned %v, want [%d %d]", vals, va, vb))
+	}
 	for _, e := range h.Rec.Since(mark) {
 		if !e.IsStatement() {
 			continue
@@ -804,13 +832,17 @@ func realPass(c *core.Ctx) {
 var Engine = &core.Engine{
 	ID:    "C01",
 	Level: "exploration",
-	Rule: "seeded chains of 1..5 parts drawn from Where/Not/Or (raw '?', @named via map/sql.Named, map, struct, clause.* trees, grouped builders, chain and Raw sub-queries, tuple IN, empty slices), Select(expr,args), Joins(raw,args), association Joins/InnerJoins with a handle of 1..3 ON conditions, Group+Having in every call order, Order/Clauses(OrderBy expr), Table(expr, sub-query), Clauses(Where/Locking), Limit/Offset x 25 finishers (reads, updates, deletes, creates from struct/slice/map/[]map, upserts, Save, Raw/Exec) x {'?', '$n'} dialectors in DryRun; " +
-		"every leaf value (string with hostile tail, ints, floats, bytes, time, pointers, Null*, driver.Valuer, gorm.Valuer, gorm.Expr) carries a serial and its column; distinct = (finisher, part kinds, dialect, size class); non-trivial = at least 2 bound values aligned and accounted for; every 4th case also runs a hostile-value round trip on SQLite behind the recording driver",
+	Rule: "seeded chains of 1..5 parts drawn from Where/Not/Or (raw '?', @named via map/sql.Named/struct fields, map, struct, clause.* trees incl. clause.NamedExpr, grouped builders, chain and Raw sub-queries, tuple IN, empty slices, nil / nil-pointer / invalid Null* arguments), Select/Distinct/Distinct().Select(expr,args), Joins(raw,args), association Joins/InnerJoins with a handle of 1..3 ON conditions, Group+Having in every call order, Order/Clauses(OrderBy expr or named expr), Table(expr,args: sub-query, table-valued function with 1..2 scalar/slice arguments written with or without space and alias, derived table over a raw condition), Clauses(Where/Locking), Limit/Offset x 25 finishers (reads incl. Scan, updates, deletes, creates from struct/slice/map/[]map, upserts, Save, Raw/Exec) x {'?', '$n'} dialectors in DryRun; " +
+		"every template that takes arguments (conditions of Where/Not/Or/Having/inline Find/Delete/join handles, select lists, raw joins, Raw/Exec, Raw sub-queries, clause.NamedExpr conditions and orders) is built from the same slot forms and in half of the cases spells a random non-empty subset of its slots '@name', the named arguments (sql.Named each, one map, or both) placed at random in front of, between or behind the positional ones; one chain in five starts from a reusable handle with a sibling chain built before the finisher; " +
+		"every leaf value (string with hostile tail, ints, floats, bytes, time, pointers, Null*, driver.Valuer, gorm.Valuer, gorm.Expr, Valuer slices/arrays) carries a serial and its column; distinct = (finisher, part kinds, dialect, size class); non-trivial = at least 2 bound values aligned and accounted for; every 4th case also runs a hostile-value round trip on SQLite behind the recording driver (create, conditions, a condition mixing '@name' and '?', a table-valued function over a bound document)",
 	Assumptions: []string{
 		"raw SQL templates, column and table names are developer input and contain no literals: any string/numeric literal or comment token in the final SQL is a spliced value",
 		"under the real SQLite dialector LIMIT/OFFSET integers are inlined by the external dialector (exempt there); the database-less dialectors use gorm's own clause/limit.go, which must bind them",
-		"templates never contain more '?' than arguments; 'IN (@name)' with a slice is not generated (unsupported spelling)",
+		"templates contain exactly one slot ('?' or '@name') per argument value; 'IN (@name)' with a slice is not generated (unsupported spelling): a plain slice directly behind '(' stays positional",
+		"'@name' is generated only where gorm builds a named expression (conditions, Select/Distinct, raw Joins, Raw, Exec, clause.NamedExpr); the templates of Table(...) and gorm.Expr(...) are positional-only builders (a sql.NamedArg handed to them is passed through to the driver as a native named parameter) and get '?' slots only",
+		"named arguments taken from the fields of a struct are used only in templates without '?' (a struct argument also counts as a positional value)",
 		"for finishers that ignore some chain parts (Count drops ORDER BY, writes ignore Select/Joins/Having) the leaves of those parts may be absent; WHERE leaves and the finisher's own values must all be bound",
+		"Scan and Raw(...).Scan end with ErrDryRunModeUnsupported under DryRun after the complete statement has been built: that statement is checked",
 	},
 	Cases: func(tier string) int {
 		if tier == "thorough" {
